@@ -13,6 +13,19 @@ chk("C05", "explicit-state BFS over operation histories of the real ordered.Map 
     "Every history of Set/Replace/Delete/Range-rename/rebuild over 3 keys x 2 values up to the stated depth is executed on the real map; states are deduplicated on a deep snapshot of the private slots+index, every observer is compared with a list-of-pairs model in every state and Equal on all ordered pairs of states; a systematic family of long histories crosses the compaction threshold. Exhaustive within bounds, no sampling.",
     "Bounded depth and alphabet; nil-map Set/Replace excluded (documented panic); JSON/YAML libraries trusted for ints and short strings.", "DESIGN.md §3 C05")
 
+chk("C15", "exhaustive enumeration of the finite key-subset x type x extras x order rule table on the real parser vs. table oracle",
+    "The whole rule table is finite: all 2^10 subsets of the kind-determining keys x 13 `type` values x 7 extra-key sets x key orders, as a top-level step and inside a group, plus all scalar step strings of a small alphabet, are parsed by the real code and compared with the documented table (dynamic step type, warning-ness, sentinel error). Fully enumerated, no sampling.",
+    "Values are well-typed so that no unmarshalling fallback interferes; non-string `type` outside the table.", "DESIGN.md §3 C15")
+chk("C17", "exhaustive enumeration of all token strings up to a length bound vs. hand-written reference canonicaliser",
+    "Every concatenation of <=4/5 tokens over a 24-token alphabet covering all documented source forms is classified by an independent reference and FullSource, its idempotence and the marshalled plugin key are compared on the real code. Exhaustive within the bound.",
+    "Strings outside the documented forms are only checked for no-panic; alphabet and length are bounded.", "DESIGN.md §3 C17")
+chk("C18", "exhaustive enumeration of finite key-form x algorithm and key-set x requested-id tables on the real validator/loader",
+    "12 key forms x every algorithm name jwx registers (+none/unknown/empty/missing), via Set and via JSON parse, against the allow-list; generated key pairs validate; 6x6 sign/verify matrix accepts exactly the diagonal; every key-set file of <=3 keys over ids {a,b,none} x valid/invalid x requested id. Fully enumerated.",
+    "Cryptography treated as a black box; duplicate ids of mixed validity not asserted.", "DESIGN.md §3 C18")
+chk("C11", "exhaustive small-scope enumeration of (matrix, permutation) pairs on the real validator vs. the statement's predicate, all map-iteration orders via seam",
+    "All matrices of the small scope (anonymous / <=2-3 named dimensions, value lists incl. empty, 0-2 adjustments incl. malformed, every skip kind, nil matrix) x all candidate permutations incl. wrong arity and unknown dimensions, built directly and through Parse; verdict == predicate, rejected permutations leave a deep snapshot unchanged; for a 2-dimension sub-scope every order of the four map range loops is explored through the iteration seam and the verdict must not vary.",
+    "Bounded scope; nil dimension lists only checked for no-panic.", "DESIGN.md §3 C11")
+
 ALL = [f"C{i:02d}" for i in range(1,20)]
 NA_REASON = {}
 man = dict(version=1, setup_cmd="./setup.sh",
